@@ -57,14 +57,7 @@ Definition ali_w (src : dir) (n : str) : out (str * tensor) :=
 Definition ref_w (feats : option dir) (src : dir) (n : str) : out (str * tensor) :=
   match dir_get src n with
   | None => Fail EOS
-  | Some t =>
-      match (match feats with
-             | None => Done None
-             | Some fd => match dir_get fd n with Some f => Done (Some (tlen f)) | None => Fail EOS end
-             end) with
-      | Fail e => Fail e
-      | Done T => match ali_of_ref T t with Done a => Done (n, a) | Fail e => Fail e end
-      end
+  | Some t => match ali_of_ref_feat feats n t with Done a => Done (n, a) | Fail e => Fail e end
   end.
 
 Lemma ali_to_ref_dir_eff pre suf workers order src dst :
@@ -84,8 +77,7 @@ Proof.
   unfold ref_to_ali_dir. generalize (pool_items workers order (filter (selected pre suf) (listdir src))).
   intros items. revert dst. induction items as [|n t IH]; intros dst; cbn [run_effects]; [reflexivity|].
   unfold eff at 1, ref_w at 1. destruct (dir_get src n) as [x|]; [|reflexivity].
-  destruct (match feats with Some fd => _ | None => Done None end) as [T|e]; [|reflexivity].
-  destruct (ali_of_ref T x) as [r|e]; [|reflexivity]. cbn [fst snd]. apply IH.
+  destruct (ali_of_ref_feat feats n x) as [r|e]; [|reflexivity]. cbn [fst snd]. apply IH.
 Qed.
 
 Lemma segs_len3 runs : forall s, Forall (fun r => length r = 3%nat) (segs s runs).
@@ -154,7 +146,7 @@ Proof.
   set (val2 := fun x => match dir_get src x with Some t => t | None => Vec [] end).
   destruct (effects_total (ref_w None r) (fun x => x) val2 items2) as (a & Ha & Na & La & Ga).
   { intros x Hx. apply In2 in Hx. destruct (In1 x Hx) as [v [Hv [Hne _]]].
-    unfold ref_w, val2. rewrite (Gr x Hx). unfold val1. rewrite Hv.
+    unfold ref_w, val2, ali_of_ref_feat. rewrite (Gr x Hx). unfold val1. rewrite Hv.
     rewrite (ali_of_ref_of_ali v Hne). reflexivity. }
   { rewrite map_id. exact N2. }
   rewrite map_id in La.
